@@ -385,3 +385,6 @@ def run(ctx):
         ctx.require(ok, "R15.7", "stores:" + name, "ErrorHook::%s stores the critical error in the hook's OnceLock" % name, fn.loc(fn.line), detail=str(sets),
                     fail="ErrorHook::%s does not store the %s in the hook's critical slot (%s): the elevation is lost and watchexec keeps running"
                          % (name, "given critical error" if name == "critical" else "elevated runtime error", sets))
+
+    ctx.rule("R15.9", "a filter error does not touch the pending batch: the window start moves only while the set is empty")
+    ctx.borrow("C02", ["R02.1"], "R15.9", "window start rule of the collect loop")
